@@ -324,7 +324,7 @@ user_home_dir_get(char *buf, size_t buf_size, size_t *buf_size_ret) {
 	if (NULL != buf_size_ret) {
 		(*buf_size_ret) = homedir_size;
 	}
-	if (NULL == buf && buf_size < homedir_size)
+	if (NULL == buf || buf_size < homedir_size)
 		return (-1);
 	memcpy(buf, homedir, homedir_size);
 
